@@ -14,6 +14,11 @@ var _ stakingtypes.StakingHooks = Hooks{}
 
 var sharesBeforeModified = sdk.NewDec(0)
 
+// the delegation (delegator/validator) sharesBeforeModified was recorded for. The value
+// outlives a transaction that fails between the two hooks (and CheckTx / simulation runs):
+// it must only ever be used for the very delegation, and in the very hook sequence, that set it.
+var sharesBeforeModifiedFor = ""
+
 func (k Keeper) Hooks() Hooks {
 	return Hooks{k}
 }
@@ -49,6 +54,7 @@ func (hook Hooks) BeforeDelegationCreated(ctx sdk.Context, delAddr sdk.AccAddres
 func (hook Hooks) BeforeDelegationSharesModified(ctx sdk.Context, delAddr sdk.AccAddress, valAddr sdk.ValAddress) error {
 	del := hook.k.staking.Delegation(ctx, delAddr, valAddr)
 	sharesBeforeModified = del.GetShares()
+	sharesBeforeModifiedFor = delAddr.String() + "/" + valAddr.String()
 	return nil
 } // Must be called when a delegation's shares are modified
 
@@ -71,7 +77,7 @@ func (hook Hooks) verifySuperStorageNodes(ctx sdk.Context, valAddr sdk.ValAddres
 
 	//Records the shares that the validator shares have not been subtracted at the time of the unbond hook call
 	sharesToSub := sdk.NewDec(0)
-	if accAddr != nil && !sharesBeforeModified.IsZero() {
+	if accAddr != nil && !sharesBeforeModified.IsZero() && sharesBeforeModifiedFor == accAddr.String()+"/"+valAddr.String() {
 		del := hook.k.staking.Delegation(ctx, accAddr, valAddr)
 		if sharesBeforeModified.GT(del.GetShares()) {
 			sharesToSub = sharesBeforeModified.Sub(del.GetShares())
@@ -129,5 +135,6 @@ func (hook Hooks) verifySuperStorageNodes(ctx sdk.Context, valAddr sdk.ValAddres
 	// reset shares before modified
 	if !sharesBeforeModified.IsZero() {
 		sharesBeforeModified = sdk.NewDec(0)
+		sharesBeforeModifiedFor = ""
 	}
 }
